@@ -1020,9 +1020,10 @@ class StructArray(FieldValidator, abc.Sequence, Generic[_S]):
             )
 
         if _VALIDATION_ENABLED.get():
-            if isinstance(value, abc.Iterable) or hasattr(value, "__getitem__"):
+            if isinstance(key, slice):
                 self.validate_many(value)
             else:
+                # a single element must be a structure, whatever else it may look like
                 self.validate_one(value)
 
         getattr(self._bound_obj, self._private_name)[key] = value
